@@ -182,9 +182,7 @@ def handleC16 (fields : List String) : Verdict :=
         | some ttR, some ttM =>
           let modelOk := ttR == ttM
           -- oracle: as a function of the vertex variables the formula holds exactly on the (maximum) cliques
-          let adj := fun (x y : Nat) =>
-            if undirected then edgesI.contains (x, y) || edgesI.contains (y, x)
-            else edgesI.contains (x, y) && edgesI.contains (y, x)
+          let adj := Puzzles.adjOf edgesI undirected   -- `C16.isClique_iff`, `C16.clique_max_bool`
           let best := maxCliqueSize adj (List.range k)
           let vertexIds := (List.range k).map vid
           let bad := (List.range (2 ^ U.length)).find? (fun mask =>
